@@ -6,6 +6,7 @@ finite container-shape domain x the 4 output-option combinations.
 import ast
 
 from sa import model
+from sa import norm
 from sa import shapes
 from sa import universe as unimod
 from sa.model import AnalysisError
@@ -291,7 +292,10 @@ def check_always_finalised(repo, rep, uni):
     for f in yi.functions.values():
         disp = [c for c in model.calls_in(f.node, shallow=True)
                 if isinstance(c.func, ast.Call) or (isinstance(
-                    c.func, ast.Attribute) and c.func.attr == 'evaluate')]
+                    c.func, ast.Attribute) and c.func.attr == 'evaluate')
+                or (isinstance(c.func, ast.Name) and isinstance(
+                    norm.subst_locals(f.node, c.func, only_pure=False),
+                    ast.Call))]
         if disp:
             hosts.append(f)
     if len(hosts) < 2:
